@@ -6988,12 +6988,14 @@ def subn(
                         else:  # need to do extra stuff to mark possibly multiple replacements as dirty
                             body = getattr(parent, virt_field)
                             len_body = len(body)
+                            repl_slot_new_a = repl_slot_new.a
 
                             parent._put_slice(repl_slot_new, virt_idx, virt_idx + 1, virt_field, one, repl_options_)
 
                             if len(body) == len_body:  # only mark dirty if replaced exactly one element because otherwise it was a deletion or subslice
-                                if f := body[virt_idx]:
-                                    dirty.add(f.a)
+                                if isinstance(f := body[virt_idx], fst.FST):  # may also be an FSTView for multi-node elements (arguments._all, MatchClass._attrs) which are always spliced in from their container
+                                    if one or f.a is repl_slot_new_a:  # if it was put as a slice and its single element spliced in then top node is gone and this is that element which should be substituted if it matches
+                                        dirty.add(f.a)
 
                         continue
 
